@@ -25,7 +25,11 @@ tolerance, see its row and the ASSUMPTIONS of C04); session 3: round 5 for C11-C
 round 6 for C11-C20 6/10 and round 7 for C01-C10 8/10 (C01-7 by C02 - see its row - and C07-7 after strengthening); every
 one of these 30 is caught by the committed checks; round 8 for all twenty: 13/20 at the first try, the other seven (C04, C06,
 C07, C08, C10, C13, C14) after the generator gained the missing dimension - two of them (C04-8, C07-8) were caught at
-once by the check of the property whose state they corrupt (C01, C02). The author of C01-6 also reported a defect of the unchanged tree
+once by the check of the property whose state they corrupt (C01, C02); round 9 for all twenty: 10/20 at the first try, the
+other ten (C04, C06, C07, C10, C11, C12, C13, C14, C16 and C13's and C14's own earlier rows aside) after the missing
+dimension was added - direction chosen before the objective, reference solutions in another order, knock-outs continued
+on a copy, compartments without description, a dictionary loaded twice, nested groups, a row left by
+fix_objective_as_constraint, single-item blocked searches, numpy's global generator disturbed between runs. The author of C01-6 also reported a defect of the unchanged tree
 (Reaction.copy of a reaction outside the model), which was confirmed, fixed (5baf313) and is now generated
 (`detached_arith`). Seeded change C07-5 relied on a genuine defect of the unchanged tree (`GPR.eval` given a
 string), which was fixed (13ae901) - see its row; the legacy-note dimension added for C10-5 exposed genuine finding
